@@ -26,7 +26,7 @@ ASSUMPTIONS = [
     "oracle: y0 + (x-x0)*(y1-y0)/(x1-x0) on the sorted fibre, compared with rtol=atol=1e-12, cross-checked against np.interp",
     "labels and values are dyadic rationals; data may contain NaN (a node keeps its value, an interval next to a NaN is NaN) and infinities (numpy.interp semantics: from the left node, else from the right node, else the common node value)",
 ]
-MANDATORY = ["data:nan", "point:between", "point:below", "point:above", "point:on-node", "axis:size-1", "axis:shuf", "axis:dec", "axis:not-first", "ndim:1", "ndim>=2",
+MANDATORY = ["operand:interpolated-before-with-other-values", "data:nan", "point:between", "point:below", "point:above", "point:on-node", "axis:size-1", "axis:shuf", "axis:dec", "axis:not-first", "ndim:1", "ndim>=2",
              "fill:left-finite", "fill:right-finite", "new:unsorted", "new:empty", "issorted:True", "like", "dataset", "vk:i"]
 
 
@@ -99,6 +99,7 @@ def case_st(draw):
             n2 = int(np.prod([len(l) for l in ol])) if ol else 1
             others.append({"dims": od, "labels": ol, "vk": "f", "vals": [k / 4.0 for k in draw(st.lists(st.integers(-20, 20), min_size=n2, max_size=n2))], "attrs": {"units": "o%d" % j}})
         case["others"] = others
+    case["rehearse"] = draw(st.integers(0, 3)) == 0
     return case
 
 
@@ -192,6 +193,21 @@ def run_case(case):
     for i_, ax_ in enumerate(a.axes):            # "leaves the other axes ... unchanged": they carry metadata of their own
         ax_.attrs["long_name"] = "axis %d" % i_
         ax_.attrs["lst"] = [i_]
+    def rehearse(objs, call):
+        """the same objects were interpolated before, when they held OTHER values under the same labels; then the final values were
+        written into their own buffers: the earlier call (and whatever it kept of the sorted / weighted data) must not matter now"""
+        finals = [np.array(o.values, copy=True) for o in objs]
+        for o in objs:
+            if o.values.dtype.kind in "if" and o.values.size:
+                o.values[...] = (np.nan_to_num(np.asarray(o.values, dtype=float), nan=0.5, posinf=9.0, neginf=-9.0)[tuple([slice(None, None, -1)] * o.values.ndim)] * 2 + 1).astype(o.values.dtype)
+        try:
+            with np.errstate(all="ignore"):
+                call()
+        except Exception:
+            pass
+        for o, v in zip(objs, finals):
+            o.values[...] = v
+        cl.add("operand:interpolated-before-with-other-values")
     snap = core.snapshot(a)
 
     def other_axes_kept(res, interpolated, what):
@@ -217,6 +233,8 @@ def run_case(case):
             kw2["issorted"] = True
             cl.add("issorted:True")
         arg = list(new) if case["new_as"] == "list" else np.array(new, dtype=float)
+        if case.get("rehearse"):
+            rehearse([a], lambda: a.interp_axis(arg, axis=axis, **kw2))
         if case.get("positional") and "issorted" not in kw2:
             # the documented signature interp_axis(values, axis=0, left=nan, right=nan, issorted=None), arguments given by position
             res = lib(lambda: a.interp_axis(arg, axis, left, right), what=what + " [axis, left, right by position]", sig=sig)
@@ -232,6 +250,8 @@ def run_case(case):
         t = case["template"]
         taxes = da.Axes([da.Axis(np.array(v, dtype=float), k) for k, v in t.items()])
         tt = taxes if case["t_as"] == "axes" else da.DimArray(np.zeros([len(v) for v in t.values()]), axes=list(taxes))
+        if case.get("rehearse"):
+            rehearse([a], lambda: a.interp_like(tt, **kw))
         res = lib(lambda: a.interp_like(tt, **kw), what=what + " template=%s" % t, sig=sig)
         # sequential definition: one dimension after the other, each by the 1-D rule
         cur = dict(spec)
@@ -254,6 +274,8 @@ def run_case(case):
         dspec = {"vars": [["main", spec]] + [["o%d" % j, o] for j, o in enumerate(case["others"])], "attrs": {"title": "t"}}
         ds = core.build_dataset(dspec)
         axis = d if case["axis_form"] == "name" else (list(ds.dims).index(d) - (len(ds.dims) if case["axis_form"] == "neg" else 0))
+        if case.get("rehearse"):
+            rehearse([ds[k_] for k_ in ds.keys()], lambda: (ds.interp_axis(list(new), axis=axis, **kw), ds.interp_like(da.Axes([da.Axis(np.array(new, dtype=float), d)]), **kw)))
         res = lib(lambda: ds.interp_axis(list(new), axis=axis, **kw), what=what + " others=%s" % core.jsonable([[o["dims"], o["labels"]] for o in case["others"]]), sig=sig)
         check(isinstance(res, da.Dataset) and list(res.keys()) == [n for n, _ in dspec["vars"]], "dataset-keys", {"what": what}, sig)
         for name, s in dspec["vars"]:
